@@ -7,6 +7,8 @@ from vf import core
 
 PROP = "C08"
 MODULES = ["ap", "gd", "ip", "lfq", "lhq", "ll", "llp", "ltq", "pbq", "rnd", "spq"]
+# developer knob: restrict a run to some modules (same per-module seeds and budgets as the full run)
+ONLY = [m for m in os.environ.get("C08_MODULES", "").split(",") if m]
 SRC = ["harness/C08/sched.cc"]
 SHIM = ["harness/C08/sched_shim.c"]
 RULE = ("one process per (module, stream count): parsec_init(n, --mca mca_sched X), context never started, harness threads "
@@ -63,17 +65,19 @@ def run(tier, seed, res):
                        "ltq stress runs without ASan unless C08_LTQ_ASAN_STRESS=1 (known use-after-free read in parsec_hbbuffer_pop_best)"]
     env_extra = {"C08_NEXT_TARGET": "1"} if NEXT_TARGET else {}
     # (1) exhaustive tiny programs, one process per module
-    jobs = [dict(cmd=[san, "exh", m, "2"], env=dict(env_extra), tag="exh:" + m, timeout=900) for m in MODULES]
+    jobs = [dict(cmd=[san, "exh", m, "2"], env=dict(env_extra), tag="exh:" + m, timeout=900) for m in MODULES if not ONLY or m in ONLY]
     wr = core.run_workers(PROP, jobs)
     res.absorb(wr, "exhaustive")
-    res.coverage["exhaustive"] = not (wr.failures or wr.crashes)
+    res.coverage["exhaustive"] = not (wr.failures or wr.crashes) and not ONLY
     res.coverage["exhaustive_subspace"] = ("per module: 2 streams, 0 or 2 tasks pre-queued on stream 0, one operation per stream from "
                                            "{S(2),VP-NULL(2),VP-NULL(1,d=1),select,VP-own(2)}; all interleavings with at most 2 preemptions")
     _collect(res, wr)
     # (2) rapidcheck programs + schedules, (module, n) per process
-    per = 100 if quick else 10000
+    per = 80 if quick else 10000
     jobs = []
     for i, m in enumerate(MODULES):
+        if ONLY and m not in ONLY:
+            continue
         for n in (2, 3):
             e = {"RC_PARAMS": "seed=%d max_success=%d max_size=100" % (seed * 131 + i * 7 + n, per)}
             e.update(env_extra)
@@ -83,9 +87,11 @@ def run(tier, seed, res):
     _collect(res, wr)
     # (3) stress
     T = 8 if quick else 16
-    iters = 6000 if quick else 600000
+    iters = 4000 if quick else 600000
     jobs = []
     for i, m in enumerate(MODULES):
+        if ONLY and m not in ONLY:
+            continue
         b = san
         if m == "ltq" and not LTQ_ASAN_STRESS:
             b = hooks
